@@ -25,7 +25,7 @@ BUDGET = {'quick': 60, 'thorough': 1200}
 
 PROFILE = gen.profile()
 FILTERS = [['proc'], ['proc'], ['proc', 'module'], ['module'], ['proc', 'module', 'typedef'], ['typedef'],
-           ['all'], ['proc', 'binding', 'interface'], ['interface'], ['binding']]
+           ['all'], ['proc', 'binding', 'interface'], ['binding']]
 
 
 @st.composite
@@ -42,6 +42,9 @@ def cases(draw):
         'mode_arg': draw(st.sampled_from([None, None, None, 'other', cfg['config']['default']['mode']])),
         'plan_regex': draw(st.booleans()),
     }
+    if set(manifest['filter']) & {'module', 'typedef', 'all'}:
+        # caller protocol: files that hold only module/typedef items are fully parsed only with enable_imports
+        cfg['config']['default']['enable_imports'] = True
     return {'proj': proj, 'cfg': cfg, 'manifest': manifest}
 
 
@@ -170,7 +173,10 @@ def check_case(case, ctx):
         return
     for run, label in ((seq, 'sequence'), (plan, 'plan')):
         if run['err'] is not None:
-            ctx.fail(f'C22:process-raises:{label}:{exc_bucket(run["err"])}', case, repr(run['err'])[:300])
+            rootc = run['err']
+            while rootc.__cause__ is not None:
+                rootc = rootc.__cause__
+            ctx.fail(f'C22:process-raises:{label}:{exc_bucket(rootc)}', case, repr(rootc)[:300])
             return
     if seq['g1'] != seq['g0']:
         ctx.fail('C22:probe-pass-changes-graph', case, 'graph differs after a read-only probe pass')
@@ -180,7 +186,9 @@ def check_case(case, ctx):
            'binding': 'transform_module', 'interface': 'transform_module'}
 
     if not mf['file_graph']:
-        expected = [n for n in sel if mode_ok(n)]
+        # InterfaceItems are documented as 'not a work item': their transformation entry point is the Interface
+        # node itself, for which Transformation.apply has no hook -> neither required nor forbidden here
+        expected = [n for n in sel if mode_ok(n) and items[n] != 'interface']
         primary = [c for c in calls if c['item'] in items and c['hook'] == own.get(items[c['item']])]
         cnt = Counter(c['item'] for c in primary)
         missing = sorted(set(expected) - set(cnt))
@@ -244,9 +252,9 @@ def check_case(case, ctx):
                 if 'proc' in flt2:
                     flt2 |= {'binding', 'interface'}
                 desc = _descendants(n, edges)
-                want = sorted(x for x in desc | {n} if 'all' in flt2 or items[x] in flt2
-                              or (items[x] == 'external' and seq['ext_origin'].get(x) in flt2))
-                if sorted(c['sub']) != want:
+                # (whether unresolved external items belong to the sub graph is not specified)
+                want = sorted(x for x in desc | {n} if items[x] != 'external' and ('all' in flt2 or items[x] in flt2))
+                if sorted(x for x in c['sub'] if items.get(x) != 'external') != want:
                     ctx.fail('C22:sub_sgraph', case, f'{n}: sub graph {sorted(c["sub"])} expected {want}')
     else:
         # ---- file graph mode ---------------------------------------------------------------------
